@@ -279,12 +279,12 @@ def execute(scn, world: World, plans: dict, res: Result, *, auto_heal: bool, rec
                 # the caller the error must reach: the formula that handles it, else us
                 reached = caught[0][1] if caught else (out[1] if failed else None)
                 if reached is None:
-                    res.violate("C18.raised", step, op=do, fired=fired, got="no exception")
+                    res.violate("C18.raised", step, op=do, fired=fired, got="no exception", what=f"{kind}: no exception")
                 elif kind in RAISE_KINDS:
                     if not (isinstance(reached, InjectedFault) and reached.site == fired[0][0]):
-                        res.violate("C18.raised", step, op=do, fired=fired, got=type(reached).__name__)
+                        res.violate("C18.raised", step, op=do, fired=fired, got=type(reached).__name__, what=f"{kind}: {type(reached).__name__}")
                 elif not isinstance(reached, EXPECTED[kind]):
-                    res.violate("C18.raised", step, op=do, fired=fired, got=type(reached).__name__)
+                    res.violate("C18.raised", step, op=do, fired=fired, got=type(reached).__name__, what=f"{kind}: {type(reached).__name__}")
 
             # C18.nopartial -----------------------------------------------------
             if failed or caught:
